@@ -67,7 +67,8 @@ def c06(tier, seed, wd, ev):
     rows, nbad, nrot = sum(r[0] for r in res), sum(r[1] for r in res), sum(r[2] for r in res)
     # the state-level part: primary = (h - v) mod n on every snapshot of real runs
     tdir = os.path.join(wd, 'traces'); os.makedirs(tdir)
-    traces = vlib.record(vh, 'sync', seed, 16, tdir, ['-heights', '3']) + vlib.record(vh, 'open', seed, 16, tdir, ['-steps', '300'])
+    traces = (vlib.record(vh, 'sync', seed, 16, tdir, ['-heights', '3']) + vlib.record(vh, 'open', seed, 64, tdir, ['-steps', '400'])
+              + vlib.record(vh, 'async', seed, 32, tdir, ['-steps', '400']) + vlib.record(vh, 'faults', seed, 32, tdir, ['-heights', '2']))   # view skips, validator-set changes, restarts
     viols, lines, states, conf = vlib.validate(traces, wd)
     mine = [v for v in viols if v['prop'] == 'C06']
     ev['level'] = 'exploration'
